@@ -17,7 +17,7 @@ namespace ColumnVerif.Skel
 open ColumnVerif.Generated
 
 /-- the dictionary version this file was written against -/
-def expectedDictVersion : Nat := 4
+def expectedDictVersion : Nat := 5
 
 def isCall (n : Nat) (t : Tok) : Bool := t.2.1 == 1 && t.2.2 == n
 def isDefer (n : Nat) (t : Tok) : Bool := t.2.1 == 2 && t.2.2 == n
@@ -124,6 +124,12 @@ def xRLockChunk := 67
 def xRUnlockChunk := 68
 def xLockChunk := 69
 def xUnlockChunk := 70
+def nColSnapshot := 71
+def nGrow := 72
+def nColsRange := 73
+def nColsStore := 74
+def nCopy := 75
+def nMake := 76
 
 /-! ### flags -/
 
@@ -237,5 +243,40 @@ def cfg : Conc.ProtoCfg :=
     emitInsideLatch := delegateInsideLatch && commitClosureOrder,
     applyInsideLatch := delegateInsideLatch && commitClosureOrder && computedAfterColumn,
     readInsideRLatch := readInsideRLatch }
+
+/-! ### index creation, chunk allocation, registry (defects D24–D26, C08-m2) -/
+
+/-- every occurrence of `p` is preceded by a `q` that comes after the previous `p` -/
+def guardedBy (l : List Tok) (p q : Tok → Bool) : Bool :=
+  (l.foldl (fun (st : Bool × Bool) t =>
+    if p t then (st.1 && st.2, false) else if q t then (st.1, true) else st) (true, false)).1
+
+/-- back-fill loop: the chunk of the target column is read (`column.Snapshot`) and indexed (`Apply`) between
+    `slock.Lock(chunk)` and `slock.Unlock(chunk)`, both directly in the loop body, no `return` in between -/
+def backfillLatchedIn (l : List Tok) : Bool :=
+  between l (isCall nSLock) (isCall nSUnlock) (isCall nColSnapshot) &&
+  between l (isCall nSLock) (isCall nSUnlock) (isCall nApply) &&
+  noReturnBetween l (isCall nSLock) (isCall nSUnlock) &&
+  cnt l (isCall nSLock) == 1 && cnt l (isCall nSUnlock) == 1 &&
+  ((l.find? (isCall nSLock)).map (·.1) == (l.find? (isCall nSUnlock)).map (·.1))
+
+def backfillLatched : Bool := backfillLatchedIn Collection_CreateIndex && backfillLatchedIn Collection_CreateSortIndex
+
+/-- the new index is grown and registered under the collection lock -/
+def indexGrownUnderLock : Bool :=
+  ordered Collection_CreateIndex [isCall nLock, isCall nGrow, isCall nColsStore, isCall nUnlock, isCall nSLock] &&
+  ordered Collection_CreateSortIndex [isCall nLock, isCall nColsStore, isCall nUnlock, isCall nSLock]
+
+/-- `commitCapacity`: the collection lock is taken first, released by `defer` only (no explicit `Unlock`):
+    the commit array, the fill list and every column grow inside one critical section -/
+def capacityUnderCollLock : Bool :=
+  Txn_commitCapacity.head? == some (0, 1, nLock) && Txn_commitCapacity[1]? == some (0, 2, nUnlock) &&
+  cnt Txn_commitCapacity (isCall nUnlock) == 0 &&
+  ordered Txn_commitCapacity [isAssign nCommits, isCall nGrow, isCall nColsRange]
+
+/-- the registry slice is never published without having been copied first -/
+def registryCopyOnWrite : Bool :=
+  has columns_Store (isCall nColsStore) && guardedBy columns_Store (isCall nColsStore) (isCall nCopy) &&
+  has columns_DeleteIndex (isCall nColsStore) && guardedBy columns_DeleteIndex (isCall nColsStore) (isCall nCopy)
 
 end ColumnVerif.Skel
